@@ -479,10 +479,12 @@ def run_check(mod, tier="quick", seed=None, budget=None, workers=None, opts=None
         f"{len(total['nontrivial'])} distinct non-trivial, {total['vtime']:.0f} simulated s, "
         f"wall {wall:.1f}s"
     )
-    for kid, n in sorted(total["known_hits"].items()):
-        k = next((k for k in known if k["id"] == kid), None)
-        what = k["what"] if k else kid
-        print(f"KNOWN-FINDING: property={mod.PROPERTY} {what} (seen {n}x)")
+    # one line per listed finding of this property, whether or not this run met it
+    for k in known:
+        if k.get("status") != "known" or k.get("property") != mod.PROPERTY:
+            continue
+        n = total["known_hits"].get(k["id"], 0)
+        print(f"KNOWN-FINDING: property={mod.PROPERTY} [{k['id']}] {k['what']} (seen {n}x in this run)")
     if harness_failures:
         print(f"HARNESS: {len(harness_failures)} harness error(s)")
         for he in harness_failures[:3]:
